@@ -19,7 +19,7 @@
  *             | cn:<hex>        subject commonName (UTF8String); several allowed, first one counts
  *   <mode> ::= g (platform inet_pton, glibc here)  |  c (usual/socket_pton.c forced in)
  *   The harness is compiled once per mode and answers "bad-mode" for the other one.
- *   name must be non-empty-or-empty C string without NUL ("bad-op" otherwise).
+ *   name is a C string (may be empty); a NUL inside name:<hex> is rejected with "bad-op".
  *
  * The functions under test come from /repo's working tree: tls_verify.c is #included so that
  * the static helpers are the real ones; tls_peer.c / tls_client.c / tls.c are linked.
@@ -192,7 +192,11 @@ static void set_nonblock(int fd)
 	fcntl(fd, F_SETFL, fl | O_NONBLOCK);
 }
 
-/* returns 0 ok, -1 failed; *msg = client's tls_error class */
+/* Real handshake: server presents the (self-signed) certificate x, client asks for `name` with
+ * verify_cert off and verify_name on.  The client is driven like an application would drive it:
+ * TLS_WANT_POLLIN / TLS_WANT_POLLOUT mean "call again", 0 is success, anything else is failure.
+ * Prints hs=ok | hs=fail | hs=stuck (client still wants to poll after 200 rounds) and the class of
+ * the client's tls_error text. */
 static void do_handshake(X509 *x, const char *name)
 {
 	struct tls_config *scfg = NULL, *ccfg = NULL;
